@@ -72,6 +72,13 @@ def replay_one(item) -> dict:
         msgs += run.check_untouched()
         if msgs:
             fails.append({"kind": "constant", "what": "; ".join(msgs[:3]), "meta": run.meta})
+    if idx % 2 == 0:
+        from ..autojac_replay import precision_run_backward
+        stats["runs"] += 1
+        msgs = precision_run_backward(scn, rng)
+        if msgs:
+            fails.append({"kind": "precision", "what": "float64 precision run (values not representable in float32): "
+                          + "; ".join(msgs[:3]), "meta": {"dtype": "float64", "perturb": "2^-29"}})
     if with_others:
         rows = len(scn["w"])
         aggs = other_aggregators(rows, torch.float64)
